@@ -142,11 +142,19 @@ func (e *Engine) installStubs() {
 	}
 	S["verif:verifSetNowUnix"] = func(e *Engine, st *State, c *callInfo, a []Value) Value {
 		st.ghost["now.sec"] = argTerm(a[0])
+		st.ghost["clock.frozen"] = True()
 		return nil
 	}
 	S["verif:verifSetNowNanos"] = func(e *Engine, st *State, c *callInfo, a []Value) Value {
 		st.ghost["now.ns"] = argTerm(a[0])
+		st.ghost["clock.frozen"] = True()
 		return nil
+	}
+	S["verif:verifTime"] = func(e *Engine, st *State, c *callInfo, a []Value) Value {
+		return mkTime(Fresh("time.sec", 64), argTerm(a[0]))
+	}
+	S["verif:verifNow"] = func(e *Engine, st *State, c *callInfo, a []Value) Value {
+		return e.stubs["time.Now"](e, st, c, nil)
 	}
 	S["verif:verifLocksHeld"] = func(e *Engine, st *State, c *callInfo, a []Value) Value {
 		return e.ghostTerm(st, "locks.held", func() *Term { return BVu(0, 64) })
@@ -200,6 +208,9 @@ func (e *Engine) installStubs() {
 		// monotone in both views; |ns| < 2^62
 		prevNs, hasNs := st.ghost["now.ns"]
 		prevSec, hasSec := st.ghost["now.sec"]
+		if e.clockFrozen(st) && hasNs && hasSec {
+			return mkTime(prevSec.(*Term), prevNs.(*Term))
+		}
 		ns := Fresh("now.ns", 64)
 		ns.Input = true
 		sec := Fresh("now.sec", 64)
@@ -404,7 +415,7 @@ func (e *Engine) msgArray(st *State, s *SliceV, site string) (*Term, *Term) {
 		j := Var(fmt.Sprintf("j!%d", TF.fresh), 64)
 		return Lambda(j, Ite(Ult(j, al.Len), Select(b.Leaves[0], Add(al.Off, j)), BVu(0, 8))), al.Len
 	}
-	n, ok := maxConst(al.Len)
+	n, ok := e.lenBound(st, al)
 	if !ok {
 		panic(unsupported("message of unbounded symbolic length at " + site))
 	}
